@@ -71,7 +71,8 @@ def check(mon, ev):
             else:
                 mon.count("out_of_domain")
                 return
-        powers_ok = True
+        # every power x^i, i <= n, is formed by some scheme even where c_i = 0 (0 * inf = NaN): overflow is out of domain
+        powers_ok = abs(X) <= 1 or all(in_domain(abs(X) ** i) for i in range(1, n + 1))
         # any scheme forms sub-expressions c_i * x^j with 0 <= j <= i (e.g. c6 + c7*x in Estrin/Horner): the coefficient
         # itself and the full term bracket all of them
         if not (powers_ok and all(in_domain(t) for t in terms) and all(in_domain(abs(c)) for c in C)):
